@@ -1208,6 +1208,10 @@ func isTrailerValue(c *Ctx, v ssa.Value, depth int) bool {
 		// an element of the field's value list, header[name]
 		if x.Op == token.MUL {
 			if ia, ok := x.X.(*ssa.IndexAddr); ok {
+				// the element under the loop's index, not one fixed element every time
+				if _, fixed := ia.Index.(*ssa.Const); fixed {
+					return false
+				}
 				return valuesOfHeaderField(c, ia.X, 0)
 			}
 		}
